@@ -26,6 +26,7 @@ from common import *
 
 FAMILY = "rdb"
 MARKER = b"__FERROUS_STREAM_MARKER__"
+ESCAPE = b"__FERROUS_LIST_ESCAPE__"       # the escape element of the LIST encoding (Model/Rdb.lean `escape`); the tree may not know it yet
 TOL = 40                      # ms: clock granularity (the stamp is floor(now)+floor(ttl)) plus scheduling noise between two clock reads
 PENDING = os.path.join(VERIF, "pending_repo_patches", "C09_findings.json")
 BIG_UNORDERED = {"quick": 1200, "thorough": 17000}   # set/hash/zset above this many members are not decoded by the Lean model (its association-list maps are quadratic)
@@ -50,11 +51,34 @@ def source_facts():
     typ = body("read_key_value_with_type")
     if exp is None or typ is None:
         raise InternalError("rdb.rs: read_key_value_with_expiry / read_key_value_with_type not found")
+    wkv = body("write_key_value")
+    if wkv is None:
+        raise InternalError("rdb.rs: write_key_value not found")
+    # the escape rule for lists headed by the stream marker (finding F23b).  The escape string is the byte literal itself or a
+    # `const NAME: &[u8] = b"…"` holding it; a function mentions the rule when it names the string (or a const holding it) or calls a
+    # helper `fn` of this file whose body does (e.g. `list_needs_escape`).
+    esc_lit = r'b"' + ESCAPE.decode() + '"'
+    esc_names = [esc_lit] + [r"\b" + n + r"\b" for n in re.findall(r"\b(?:const|static)\s+(\w+)\s*:[^=;]*=\s*" + esc_lit, rdb_nc)]
+    esc_re = "|".join(esc_names)
+    helpers = [n for n in re.findall(r"\bfn\s+(\w+)\b", rdb_nc)
+               if n not in ("write_key_value", "read_key_value_with_type", "generate_rdb_bytes") and re.search(esc_re, body(n) or "")]
+
+    def mentions_escape(b):
+        return bool(b) and bool(re.search(esc_re, b) or any(re.search(r"\b" + h + r"\s*\(", b) for h in helpers))
+    # the loader's half: under the LIST opcode the first element is compared with the escape string (and then not pushed)
+    esc_read = bool(re.search(r"first_element\s*[!=]=\s*(?:" + esc_re + r")|(?:" + esc_re + r")\s*[!=]=\s*first_element", typ)) or \
+        (mentions_escape(typ) and not re.search(esc_re, typ))
     facts = {
         # proposed fix: the expired pair is deleted again (or skipped) instead of being loaded with ttl None
         "dropExpired": bool(re.search(r"\.delete\s*\(", exp)),
         # proposed fix: the marker-only list re-creates the empty stream
         "keepEmptyStream": bool(re.search(r"empty_stream\s*\(|Stream::new\s*\(", typ)),
+        # proposed fix (F23b), loader side: a first element equal to the escape string is dropped, the rest is a plain list
+        "listEscapeRead": esc_read,
+        # proposed fix (F23b), writer side: write_key_value writes the escape string in front of a list headed by marker/escape
+        "listEscapeWrite": mentions_escape(wkv) and bool(re.search(r"write_string\s*\(\s*(?:" + esc_re + r")\s*\)", wkv)),
+        # the replication encoder writes the same pairs: it must apply the rule iff write_key_value does
+        "listEscapeRepl": mentions_escape(body("generate_rdb_bytes")),
         "marker_sites": len(re.findall(r'b"' + MARKER.decode() + '"', rdb_nc)),
         # the model's decSnapshot takes ONE instant per key — the instant that key is loaded: the loader must read the wall clock
         # where it turns the key's absolute deadline into a TTL (a clock read once for the whole load makes every deadline
@@ -70,6 +94,17 @@ def source_facts():
         raise InternalError("Cargo.toml: version not found")
     facts["version"] = m.group(1)
     return facts
+
+
+def cfg_line(facts):
+    """the Lean drivers' `cfg` request for this tree (families rdb and rdbsave; also used by lib/c10.py)"""
+    return "cfg %s %d %d %d %d" % (hx(facts["version"].encode()), facts["dropExpired"], facts["keepEmptyStream"],
+                                   facts["listEscapeRead"], facts["listEscapeWrite"])
+
+
+def escape_rule(facts):
+    """both halves of the escape rule are in the tree: finding F23b is repaired"""
+    return bool(facts["listEscapeRead"] and facts["listEscapeWrite"])
 
 
 # ------------------------------------------------------------------ datasets
@@ -384,7 +419,7 @@ class C09:
         self.impl = LineProc([os.path.join(bindir, "impl_" + FAMILY)], "impl-" + FAMILY)
         # the model recurses over 70 000-element lists: give the Lean executable a large stack
         self.model = LineProc(["sh", "-c", "ulimit -s 2000000 2>/dev/null || ulimit -s unlimited 2>/dev/null; exec " + os.path.join(LEAN_BIN, "drv_" + FAMILY)], "lean-" + FAMILY)
-        a = self.model.ask("cfg %s %d %d" % (hx(facts["version"].encode()), facts["dropExpired"], facts["keepEmptyStream"]))
+        a = self.model.ask(cfg_line(facts))
         if a != "ok":
             raise InternalError("Lean driver refused cfg: %r" % a)
         self.oracle_failures = []      # (case name, diff, case) not explained by a known finding
